@@ -138,6 +138,11 @@ def setup(chk=None):
     os.makedirs(os.path.dirname(GEN), exist_ok=True)
     _write(os.path.join(SITE, "c18_plugins.py"), _PLUGINS_PY)
     _write(os.path.join(SITE, "c18_canary_mod.py"), _CANARY_PY)
+    # a nested canary package: importing (or merely "looking up") c18_canary_pkg.inner.leaf executes the parents
+    for sub, name in (("c18_canary_pkg", "c18_canary_pkg"), ("c18_canary_pkg/inner", "c18_canary_pkg.inner")):
+        os.makedirs(os.path.join(SITE, sub), exist_ok=True)
+        _write(os.path.join(SITE, sub, "__init__.py"), _CANARY_PY.replace("c18_canary_mod", name))
+    _write(os.path.join(SITE, "c18_canary_pkg/inner/leaf.py"), _CANARY_PY.replace("c18_canary_mod", "c18_canary_pkg.inner.leaf"))
     _write(os.path.join(SITE, "c18plug-0.0.dist-info", "entry_points.txt"), _ENTRY_POINTS)
     _write(os.path.join(SITE, "c18plug-0.0.dist-info", "METADATA"),
            "Metadata-Version: 2.1\nName: c18plug\nVersion: 0.0\n")
@@ -489,7 +494,7 @@ def _run_doc(req):
     else:
         res["marker"] = []
     new = sorted(set(sys.modules) - before)
-    res["canary_imported"] = [m for m in new if m.split(".")[0] == "c18_canary_mod"]
+    res["canary_imported"] = [m for m in new if m.split(".")[0] in ("c18_canary_mod", "c18_canary_pkg")]
     calls = []
     ctl_seen = False
     plug = sys.modules.get("c18_plugins")
@@ -715,10 +720,10 @@ def dump_safe(d):
 # the document corpus
 # ======================================================================================
 FUNCS = ["builtins.eval", "os.system", "subprocess.Popen", "cobald.controller.stepwise.RangeSelector",
-         "c18_canary_mod.fire", "c18_canary_mod.Canary"]
+         "c18_canary_mod.fire", "c18_canary_mod.Canary", "c18_canary_pkg.inner.leaf.fire"]
 CLASSES = ["subprocess.Popen", "cobald.controller.stepwise.RangeSelector", "c18_canary_mod.Canary",
            "builtins.bytearray"]
-MODULES = ["os", "subprocess", "c18_canary_mod", "cobald.controller.stepwise"]
+MODULES = ["os", "subprocess", "c18_canary_mod", "cobald.controller.stepwise", "c18_canary_pkg.inner.leaf"]
 
 
 def node_variants():
@@ -742,7 +747,9 @@ def node_variants():
         out.append(("typed/" + k, None, shape, "!!python/%s %s" % (k, v)))
     for txt, shape in (("!Unregistered {}", "map"), ("!Unregistered [1]", "seq"), ("!Unregistered x", "scalar"),
                        ("!cobald.controller.stepwise.RangeSelector {}", "map"), ("!linearcontroller {}", "map"),
-                       ("!LinearControllerX {}", "map"), ("!C18LazyX {a: 1}", "map"), ("!!unknown x", "scalar"),
+                       ("!LinearControllerX {}", "map"), ("!c18_canary_mod.Canary {}", "map"),
+                       ("!c18_canary_pkg.inner.leaf.Canary {}", "map"), ("!c18_canary_pkg.inner.Canary [1]", "seq"),
+                       ("!c18_canary_pkg.inner.leaf.fire x", "scalar"), ("!C18LazyX {a: 1}", "map"), ("!!unknown x", "scalar"),
                        ("!<tag:example.com,2000:foo> x", "scalar"),
                        ("!<tag:yaml.org,2002:python/object/apply:os.system> [c18arg]", "seq"),
                        ("!<tag:yaml.org,2002:python/name:os.system> ''", "scalar")):
